@@ -137,6 +137,8 @@ pub mod segment_compression;
 pub mod splitters;
 pub mod task;
 pub mod tuple_packing;
+#[cfg(ragc_verif)]
+pub mod verif_hooks;
 pub mod worker;
 pub mod zstd_pool;
 
